@@ -155,6 +155,7 @@ class Outcome:
         cov = dict(coverage)
         cov.setdefault('samples', self.samples[:5] or [{'note': 'no sample recorded'}])
         cov['drift_clauses'] = self.drift
+        cov['drift_witnesses'] = [n for n in self.notes if isinstance(n, dict) and 'drift' in n][:6]
         cov['other_property_failures'] = self.other
         cov['nontrivial_marks'] = self.marks
         ev = {'property_id': self.pid, 'tier': self.tier, 'seed': self.seed, 'level': level,
@@ -196,6 +197,8 @@ def judge_traces(out, traces, clause_prefixes, module='TraceChunk', text_of=None
             for c in fails:
                 if c.startswith('I_'):
                     out.drift[c] = out.drift.get(c, 0) + 1
+                    if out.drift[c] <= 2:          # keep a witness: drift means the implementation-level model needs re-aligning
+                        out.notes.append({'drift': c, 'step': step, 'replay': write_replay(out.pid, 'scenario', {'desc': tr['_desc'], 'clause': c, 'step': step})})
                 elif any(c.startswith(p) for p in clause_prefixes):
                     ev = tr['events'][step - 1]
                     txt = (text_of(tr, step, c) if text_of else
